@@ -42,7 +42,8 @@ CHECKS["C02"] = {
     "level": "model_checking",
     "rule": "Engine A: same state space as C01 (two clients, peers A, A' (same IP other port), B (other IP same port), V6; three policies; timeout configurations); " + SWEEP +
             "C02 judges: anything a client receives because of a peer datagram that the model does not authorise (unpermitted sender, wrong client, wrong encapsulation/attribution).",
-    "parts": [A("vtx", "./checks/c02", "TestC02", budget={"quick": 90, "thorough": 1500})],
+    "parts": [A("vtx", "./checks/c02", "TestC02", budget={"quick": 90, "thorough": 1500}),
+              A("sched", "./checks/bsem", "TestC02Sched", overlay=True, gomaxprocs=1, budget={"quick": 90, "thorough": 1500})],
 }
 CHECKS["C04"] = {
     "level": "model_checking",
@@ -53,7 +54,8 @@ CHECKS["C04"] = {
             "peers for Connect / inbound connections / ConnectionBind (own and the other client's connection ids).",
     "parts": [A("vtx", "./checks/c04", "TestC04", budget={"quick": 90, "thorough": 1500}),
               A("family", "./checks/c04", "TestC04Family", budget={"quick": 60, "thorough": 900}),
-              A("tcp", "./checks/c04", "TestC04TCP", budget={"quick": 90, "thorough": 1500})],
+              A("tcp", "./checks/c04", "TestC04TCP", budget={"quick": 90, "thorough": 1500}),
+              A("sched", "./checks/bsem", "TestC04Sched", overlay=True, gomaxprocs=1, budget={"quick": 90, "thorough": 1500})],
 }
 CHECKS["C08"] = {
     "level": "model_checking",
@@ -86,8 +88,12 @@ CHECKS["C18"] = {
             "S4 peer datagram vs Refresh0, S5 permission refresh vs permission timer, S6 channel refresh vs channel timer, S7 Connect/duplicate Connect/Refresh on a TCP allocation, "
             "S8 Server.Close vs request vs peer datagram, S10 two stream clients on one manager; lifecycle callbacks yield) ALL schedules with at most 2 (thorough 3) preemptions are executed "
             "on the real code by prefix replay; timers whose deadline is within 1ms may fire at any point. Verdicts: panic in any thread, deadlock, lock held when its holder exits, "
-            "unlock of unlocked mutex, harness thread that must complete but never does. A class is (scenario => sorted verdict set).",
-    "parts": [A("sched", "./checks/c18", "TestC18Sched", overlay=True, gomaxprocs=1, budget={"quick": 120, "thorough": 2400})],
+            "unlock of unlocked mutex, harness thread that must complete but never does. A class is (scenario => sorted verdict set). "
+            "Plus lockpaths: a model extracted mechanically from the sources at check time - every control-flow path (each if/switch/select arm, loops taken 0 and 1 times with a state-preservation check on the back edge, "
+            "every return / break / continue / panic) of every function and function literal that calls Lock/RLock on a sync.Mutex/RWMutex, abstract state = multiset of held lock expressions + deferred unlocks; every exit "
+            "must have held minus deferred = empty; also re-lock of a held mutex and unlock of an unheld one. Data races themselves are NOT decided by this family (see DESIGN section 7).",
+    "parts": [A("sched", "./checks/c18", "TestC18Sched", overlay=True, gomaxprocs=1, budget={"quick": 120, "thorough": 2400}),
+              A("lockpaths", "./checks/c18", "TestC18LockPaths", nshards=1, budget={"quick": 60, "thorough": 60})],
 }
 
 CHECKS["C10"] = {
@@ -215,7 +221,8 @@ CHECKS["C16"] = {
             "(others closed without indication, nothing reaches another client), bind succeeds exactly once, only for the allocation's user, only before 30 s, after which the peer connection is closed; bound streams are equal as "
             "byte sequences in both directions, nothing echoed, close propagates; duplicate Connect -> 446 and a further request is still served; after every event relay-side connections == model, AllocationCount, relay "
             "listeners; (thorough) also with the deny-B operator policy: refused target never dialled.",
-    "parts": [A("vtx", "./checks/c16", "TestC16", budget={"quick": 120, "thorough": 1800})],
+    "parts": [A("vtx", "./checks/c16", "TestC16", budget={"quick": 120, "thorough": 1800}),
+              A("sched", "./checks/bsem", "TestC16Sched", overlay=True, gomaxprocs=1, budget={"quick": 90, "thorough": 1500})],
 }
 
 CHECKS["C12"] = {
@@ -231,6 +238,21 @@ CHECKS["C12"] = {
             "A class is (answer kind, noise, write-error kind, close kind -> observed completion).",
     "parts": [A("single", "./checks/c12", "TestC12Single", budget={"quick": 60, "thorough": 900}),
               A("concurrent", "./checks/c12", "TestC12Concurrent", budget={"quick": 60, "thorough": 900})],
+}
+
+CHECKS["C13"] = {
+    "level": "model_checking",
+    "rule": "Engine A, client side: every event sequence (depth 5 quick / 6 thorough from a fresh allocation, 4/5 after P1 is permitted+bound, 3/5 after 5 virtual minutes when the channel refresh is due, 6/7 and 5/6 with a "
+            "reduced menu) over {WriteTo(P1 | P1' same IP other port | P2), ReadFrom, SetReadDeadline(now+1s | past | zero), Close, server reaction to the oldest pending CreatePermission/ChannelBind in {success, 400, 403, "
+            "438+fresh nonce, silence}, Data indication from P1 / unknown P9, ChannelData on the lowest confirmed channel / on unbound 0x4ABC, advance 100ms | 2s | 31s | 121s} on the real turn.Client + UDPConn against a "
+            "scripted server in virtual time; after every event the ordered wire log and all app results are judged against the model perm[IP], bind[peer]=(n,state), relayed queue, deadline, closed: (1) no Send/ChannelData "
+            "toward P before a CreatePermission success for P's IP was delivered; (2) ChannelData(n) only after ChannelBind(n,P) success was delivered, else Send with XOR-PEER-ADDRESS=P, payload identical, at most once; "
+            "(3) numbers in 0x4000-0x7FFF, one per peer address; (4) ReadFrom returns exactly the relayed payloads in order with the right address, nothing from unbound channels; (5) timeout exactly at the deadline, zero "
+            "deadline blocks, Close unblocks; (6) a probe queued behind every inbound datagram is consumed (read loop never blocked); (7) WriteTo succeeds only with a granted permission, 438 retried with the fresh nonce. "
+            "Stress: 1100-datagram bursts with no reader, 3000 with a slow reader, 12 ConnectionAttempts with nobody in Accept, 16384 distinct peers, payload lengths 0..24 (thorough 0..64) with and without a leading magic "
+            "cookie as ChannelData and as Data indication. A class is (start, event [context] => outcome tokens); a state is the canonical model key.",
+    "parts": [A("histories", "./checks/c13", "TestC13Histories", gomaxprocs=2, budget={"quick": 90, "thorough": 1500}),
+              A("stress", "./checks/c13", "TestC13Stress", budget={"quick": 60, "thorough": 120})],
 }
 
 ENGINES = [
